@@ -4,7 +4,11 @@
    C06 de-resume  <setup> (pop ((..)..)) (popE (..)) (best (..)) (bestE f) (nlog n) (nstep n) (trials (((..)..)..)) (two b)
    C06 nm-resume  <setup> (sim ((..)..)) (fsim (..)) (nlog n) (nstep n) (steps k) (radius f) (inplace b)
    C06 ctl-resume (state gens evals nstep maxiter maxfun exit live) (scale i e) (powell b) (ops (..))
-   C06 alias      (ops ((fresh) (call i n) (decorate i) (pickle i) (deepcopyU i) (deepcopyL i) ..))
+   C06 alias      (ops ((fresh) (call i n) (decorate i) (pickle i) (deepcopyU i) (deepcopyL i) (shallow i) ..))
+   C06 sticky     (solver de) (known K) (stored name cr f) (ops ((step s c f) (solve s c f k) (set s c f) (pickle) ..))
+                  (solver two) (stored a b) (ops ((step a b) (solve a b k) (set a b) (pickle) ..)): the solver-private
+                  settings handed to `_process_inputs` as keywords (`none` = not given); after every op the stored fields
+                  and the settings every generation of that op was made with (`deStepKw` / `deSolveKw` / `step2Kw` / `solve2Kw`)
    C06 pw-resume  <setup> (x (..)) (fval f) (x1 (..)) (fx f) (bigind n) (delta f) (direc ((..)..)) (nlog n)
                   (steplog (((..) f) ..)) (pending b) (steps k) (ls (<recorded line search> ..))
                   Powell-in-S (`Model/PowellS.lean`) restarted from an EXPLICIT `PwSnap` through `PowellS.stepAt`
@@ -145,6 +149,10 @@ def handleAlias (args : List Val) : String := Id.run do
       let some l := objs[i.toNat]? | return "err index"
       let r := pickleCopy h l
       h := r.1; objs := objs.push r.2
+    | .list [.sym "shallow", .int i] =>          -- __copy__: the same objects
+      let some l := objs[i.toNat]? | return "err index"
+      let r := shallowCopy h l
+      h := r.1; objs := objs.push r.2
     | .list [.sym "deepcopyU", .int i] =>        -- __deepcopy__ as implemented
       let some l := objs[i.toNat]? | return "err index"
       let r := deepcopyImpl h l
@@ -152,6 +160,97 @@ def handleAlias (args : List Val) : String := Id.run do
     | _ => return "bad-op"
     outs := outs.push ("(" ++ " ".intercalate (objs.toList.map (showObj h)) ++ ")")
   return s!"ok states=({" ".intercalate outs.toList})"
+
+/-! ### solver-private settings given as keywords -/
+
+def optF? : Val → Option (Option Float)
+  | .sym "none" => some none
+  | v => v.asFloat?.map some
+
+def optN? : Val → Option (Option Nat)
+  | .sym "none" => some none
+  | v => v.asNat?.map some
+
+abbrev Used3 := List (Nat × Float × Float)
+abbrev Used2 := List (Float × Float)
+
+def genLog3 : Nat → Float → Float → Used3 → Used3 := fun s p f u => u ++ [(s, p, f)]
+def genLog2 : Float → Float → Used2 → Used2 := fun a b u => u ++ [(a, b)]
+
+def showDESet (st : DESet Float) (u : Used3) : String :=
+  s!"({st.strategy} {pF st.probability} {pF st.scale} (" ++ " ".intercalate (u.map fun t => s!"({t.1} {pF t.2.1} {pF t.2.2})") ++ "))"
+
+def showSet2 (st : Set2 Float Float) (u : Used2) : String :=
+  s!"({pF st.a} {pF st.b} (" ++ " ".intercalate (u.map fun t => s!"({pF t.1} {pF t.2})") ++ "))"
+
+def handleStickyDE (args : List Val) : String := Id.run do
+  let some nK := (kw? args "known").bind Val.asNat? | return "bad-op"
+  let some (.list [nm, cr, f]) := kw? args "stored" | return "bad-op"
+  let some nm' := nm.asNat? | return "bad-op"
+  let some cr' := cr.asFloat? | return "bad-op"
+  let some f' := f.asFloat? | return "bad-op"
+  let some ops := (kw? args "ops").bind Val.asList? | return "bad-op"
+  let mut st : DESet Float := { strategy := nm', probability := cr', scale := f' }
+  let mut outs : Array String := #[]
+  for op in ops do
+    match op with
+    | .list [.sym "step", s, c, f] =>
+      let some s' := optN? s | return "bad-op"
+      let some c' := optF? c | return "bad-op"
+      let some f' := optF? f | return "bad-op"
+      let r := deStepKw (DESet.process nK) genLog3 { strategy := s', cr := c', f := f' } (st, [])
+      st := r.1; outs := outs.push (showDESet st r.2)
+    | .list [.sym "solve", s, c, f, .int k] =>
+      let some s' := optN? s | return "bad-op"
+      let some c' := optF? c | return "bad-op"
+      let some f' := optF? f | return "bad-op"
+      let r := deSolveKw (DESet.process nK) genLog3 { strategy := s', cr := c', f := f' } k.toNat (st, [])
+      st := r.1; outs := outs.push (showDESet st r.2)
+    | .list [.sym "set", s, c, f] =>             -- plain attribute assignment (what a configuration script does)
+      let some s' := optN? s | return "bad-op"
+      let some c' := optF? c | return "bad-op"
+      let some f' := optF? f | return "bad-op"
+      st := { strategy := s'.getD st.strategy, probability := c'.getD st.probability, scale := f'.getD st.scale }
+      outs := outs.push (showDESet st [])
+    | .list [.sym "pickle"] =>                   -- the fields travel; the `settings` dict never existed outside `Solve`
+      outs := outs.push (showDESet st [])
+    | _ => return "bad-op"
+  return s!"ok states=({" ".intercalate outs.toList})"
+
+def handleSticky2 (args : List Val) : String := Id.run do
+  let some (.list [a, b]) := kw? args "stored" | return "bad-op"
+  let some a' := a.asFloat? | return "bad-op"
+  let some b' := b.asFloat? | return "bad-op"
+  let some ops := (kw? args "ops").bind Val.asList? | return "bad-op"
+  let mut st : Set2 Float Float := { a := a', b := b' }
+  let mut outs : Array String := #[]
+  for op in ops do
+    match op with
+    | .list [.sym "step", a, b] =>
+      let some a' := optF? a | return "bad-op"
+      let some b' := optF? b | return "bad-op"
+      let r := step2Kw genLog2 { a := a', b := b' } (st, [])
+      st := r.1; outs := outs.push (showSet2 st r.2)
+    | .list [.sym "solve", a, b, .int k] =>
+      let some a' := optF? a | return "bad-op"
+      let some b' := optF? b | return "bad-op"
+      let r := solve2Kw genLog2 { a := a', b := b' } k.toNat (st, [])
+      st := r.1; outs := outs.push (showSet2 st r.2)
+    | .list [.sym "set", a, b] =>
+      let some a' := optF? a | return "bad-op"
+      let some b' := optF? b | return "bad-op"
+      st := { a := a'.getD st.a, b := b'.getD st.b }
+      outs := outs.push (showSet2 st [])
+    | .list [.sym "pickle"] =>
+      outs := outs.push (showSet2 st [])
+    | _ => return "bad-op"
+  return s!"ok states=({" ".intercalate outs.toList})"
+
+def handleSticky (args : List Val) : String :=
+  match kw? args "solver" with
+  | some (.sym "de") => handleStickyDE args
+  | some (.sym "two") => handleSticky2 args
+  | _ => "bad-op"
 
 /-! ### Powell-in-S restarted from an explicit snapshot -/
 
@@ -253,6 +352,7 @@ def handle : Handler
   | .sym "nm-resume" :: args => handleNM args
   | .sym "ctl-resume" :: args => handleCtl args
   | .sym "alias" :: args => handleAlias args
+  | .sym "sticky" :: args => handleSticky args
   | .sym "pw-resume" :: args => handlePwResume args
   | .sym "pw-dump" :: args => handlePwDump args
   | .sym "pw-share" :: args => handlePwShare args
